@@ -235,6 +235,16 @@ void judge(const sim::Json& sc, const RunRecord& rec, sim::RunResult& r) {
     const oracle::SolSuffix* vi = sf.find_suffix("iis", 0);
     const oracle::SolSuffix* ci = sf.find_suffix("iis", 1);
     if (vi || ci) r.stats.set("iis_reported", 1);
+    // the solver was asked for an IIS and answered: the flags of the variables / of rows that reached it unchanged must arrive
+    // (whatever the flags of other items are)
+    if (find_call(rec, "GetIIS")) {
+      bool var_flag = false, row_flag = false;
+      for (long j = 0; j < n; ++j) if (SimBackend::IISTag(isalt, (int)j) != 0) var_flag = true;
+      for (long i = 0; i < m; ++i) if (img[(size_t)i].kind == 1 && img[(size_t)i].group == CG_LIN && SimBackend::IISTag(isalt + CG_LIN, img[(size_t)i].idx) != 0) row_flag = true;
+      r.stats.set("iis_answered", 1);
+      if (var_flag && !vi) flag("IIS_LOST", "var", "the solver returned IIS flags for variables but the .sol has no variable suffix 'iis'; message: " + sf.message_text().substr(0, 200) + " stdout: " + rec.out.substr(0, 300));
+      if (row_flag && !ci) flag("IIS_LOST", "con", "the solver returned IIS flags for rows that reached it unchanged but the .sol has no constraint suffix 'iis'; message: " + sf.message_text().substr(0, 200));
+    }
     if (vi) {
       std::map<int, double> mv; for (auto& e : vi->entries) mv[e.first] = e.second;
       for (long j = 0; j < n; ++j) {
@@ -254,7 +264,8 @@ void judge(const sim::Json& sc, const RunRecord& rec, sim::RunResult& r) {
         const Image& im = img[(size_t)i];
         if (im.kind != 2 || im.group != CG_LIN) continue;
         int sl = SimBackend::IISTag(isalt, im.slack_var);
-        int want = sl == 1 ? 3 : sl == 3 ? 1 : sl == 2 ? 2 : sl == 0 ? SimBackend::IISTag(isalt + CG_LIN, im.idx) : -1;
+        // the slack's flag with lower/upper exchanged (low<->upp, plow<->pupp; fix, mem, pmem as they are); the row's own flag if the slack has none
+        int want = sl == 1 ? 3 : sl == 3 ? 1 : sl == 6 ? 7 : sl == 7 ? 6 : sl == 0 ? SimBackend::IISTag(isalt + CG_LIN, im.idx) : sl;
         if (want >= 0 && (int)mc[(int)i] != want) flag("WRONG_CON_IIS", "slack", "range constraint " + std::to_string(i) + " iis " + std::to_string((int)mc[(int)i]) + ", expected " + std::to_string(want) + " (slack flag " + std::to_string(sl) + ")");
       }
     }
